@@ -1,4 +1,5 @@
 import Driver.Proto
+import Driver.Mcount
 import Uft.Model.Shmem
 import Uft.Model.Crash
 /- C03 / C04 driver (models Shmem, Writers, Crash).
@@ -17,6 +18,15 @@ import Uft.Model.Crash
    W <w> pick | write | splice
    SEGV <fixed:0|1> <maxstack> <idx> <written…>               segv_handler's flush (Crash.segvFlush): idx calls are
                                                              open, function k at depth k, innermost first flags
+   H <line of the hook-model driver>                          (C04) CFG / TRIG / FSIZE / T / E pg|cyg <fn> / X … are passed to
+                                                             Driver.Mcount (the libmcount hook model with its record-time
+                                                             filters); the answer is that driver's
+   HSEGV <fixed:0|1>                                          segv_handler on the hook model's current state (whatever frames
+                                                             the filters made NORECORD / DISABLED): Crash.segvFlush
+   TID <again:0|1> <mt:0|1> <pid> <ktid> <op…>               the identity machine (Shmem.idRun): g gettid, v<child> vfork,
+                                                             d0|d1 the parent returns from vfork (1: to the restored copy
+                                                             of the vfork frame), f<child> fork, x exec, o<tid> another
+                                                             thread is inside vfork; answers tid= ktid= bufs= own=
    every answer: "ok <state>" or "disabled <state>"
 -/
 namespace Driver.C03
@@ -26,6 +36,7 @@ structure St where
   cfg : Cfg := {}
   s : State := State.init 1
   tids : List Tid := []
+  mc : Driver.Mcount.DS := {}      -- (C04) the hook model under record-time filters
 
 def showItem : Item → String
   | .whole r => toString r.id
@@ -218,6 +229,32 @@ def handle (st : St) : List String → St × String
       ((written.map (· == "1")) ++ List.replicate n false)
     let ms : Mcount.St := { frames := frames, over := idx - n }
     (st, Crash.showSegv (Crash.segvFlush (fx == "1") ms))
+  | "TID" :: ag :: mt :: pid :: ktid :: ops =>
+    let parseOp (w : String) : Option IdOp :=
+      let arg := (w.drop 1).toString.toNat?.getD 0
+      match w.toList.head? with
+      | some 'g' => some .gettid
+      | some 'v' => some (.vfork arg)
+      | some 'd' => some (.vforkDone (arg == 1))
+      | some 'f' => some (.fork arg)
+      | some 'x' => some .exec
+      | some 'o' => some (.otherVfork arg)
+      | _ => none
+    let s := idRun { again := ag == "1", mt := mt == "1" }
+      { pid := pid.toNat!, ktid := ktid.toNat!, bufs := ktid.toNat! } (ops.filterMap parseOp)
+    (st, s!"tid={s.msgTid} ktid={s.ktid} bufs={s.bufs} own={if s.own then 1 else 0}")
+  | "H" :: ws =>
+    let (d, out) := Driver.Mcount.step st.mc ws
+    ({ st with mc := d }, out)
+  | ["HSEGV", fx] =>
+    if st.mc.st.isNone then (st, "nothing") else       -- check_thread_data: the handler does nothing without thread data
+    match Crash.segvFlush (fx == "1") st.mc.state with
+    | .nothing => (st, "nothing")
+    | .wild i => (st, s!"wild {i}")
+    | .flushed fs recs =>
+      let s' : Mcount.St := { st.mc.state with frames := fs, out := st.mc.state.out ++ recs }
+      ({ st with mc := { st.mc with st := some s', nout := s'.out.length } },
+       "flushed recs=[" ++ " ".intercalate (recs.map Driver.Mcount.showRec) ++ "]")
   | _ => (st, "bad-op")
 
 def model : Model := { σ := St, init := {}, step := handle }
